@@ -6,7 +6,7 @@
     buffers and the global field. *)
 From Coq Require Import List Arith Lia PeanoNat Bool.
 Import ListNotations.
-From PGV Require Import NdIndex Blocks Layouts Handler TransposeStep TransposeLocal TransposeExec HandlerRoute.
+From PGV Require Import NdIndex Blocks Layouts Handler TransposeStep TransposeLocal TransposeExec HandlerRoute HandlerCompat.
 
 (** one distributed swap, function level (pack -> Alltoall -> unpack with padded blocks) *)
 Theorem c01_step_correct :
@@ -31,6 +31,15 @@ Theorem c01_run_step_correct :
   HoldsL V dflt Nl nprocs d' G nxt (run_step V dflt Nl nprocs cur nxt d' bufs).
 Proof. exact run_step_correct. Qed.
 Print Assumptions c01_run_step_correct.
+
+(** the handler's own acceptance test for a direct transition, LayoutHandler.compatible, implies the hypothesis
+    of the step theorem on every well-formed configuration (global shape of the right rank, both orders
+    permutations, process grid no longer than the rank, positive process counts) *)
+Theorem c01_compatible_step_ok : forall (Nl nprocs l1 l2 : list nat) (d' : nat),
+  cfg_wf_b Nl nprocs l1 l2 d' = true -> compatible nprocs l1 l2 = true ->
+  step_ok_b Nl nprocs d' l1 l2 = true.
+Proof. exact compatible_step_ok. Qed.
+Print Assumptions c01_compatible_step_ok.
 
 (** any route of acceptable steps (the handler's route map is checked with [route_ok_b] on every run) *)
 Theorem c01_route_correct :
